@@ -60,7 +60,11 @@ func main() {
 	if *genMut != "" {
 		os.MkdirAll(*genMut, 0o755)
 		var idx strings.Builder
-		for i, m := range genMutants(*repo, anchorFiles(*verif, *prop), anchorRanges(*verif, *prop), 250, 0) {
+		maxMut := 250
+		if v, err := strconv.Atoi(os.Getenv("SWEEP_MAX")); err == nil && v > 0 {
+			maxMut = v
+		}
+		for i, m := range genMutants(*repo, anchorFiles(*verif, *prop), anchorRanges(*verif, *prop), maxMut, 0) {
 			name := fmt.Sprintf("m%03d.go", i)
 			os.WriteFile(filepath.Join(*genMut, name), m.src, 0o644)
 			fmt.Fprintf(&idx, "%s\t%s\t%s\n", name, m.file, m.desc)
